@@ -17,6 +17,7 @@ pub mod c07;
 pub mod c07_net;
 pub mod c07_probe;
 pub mod c08;
+pub mod c08_bind;
 pub mod c09;
 pub mod c10;
 pub mod c10_handover;
